@@ -45,8 +45,17 @@ func (h *recHandler) Handle(ctx context.Context, msg p9p.Message) (p9p.Message, 
 	h.mu.Lock()
 	h.seen = append(h.seen, msg)
 	h.mu.Unlock()
-	if m, ok := msg.(p9p.MessageTread); ok {
+	switch m := msg.(type) {
+	case p9p.MessageTread:
 		return p9p.MessageRread{Data: make([]byte, m.Count)}, nil
+	case p9p.MessageTopen:
+		return p9p.MessageRopen{Qid: p9p.Qid{Type: p9p.QTFILE, Version: 1, Path: 2}, IOUnit: 0}, nil // 24 bytes on the wire
+	case p9p.MessageTattach:
+		return p9p.MessageRattach{Qid: p9p.Qid{Type: p9p.QTDIR, Path: 1}}, nil // 20 bytes
+	case p9p.MessageTcreate:
+		return p9p.MessageRcreate{Qid: p9p.Qid{Path: 3}, IOUnit: 0}, nil // 24 bytes
+	case p9p.MessageTwrite:
+		return p9p.MessageRwrite{Count: uint32(len(m.Data))}, nil // 11 bytes
 	}
 	return p9p.MessageRclunk{}, nil
 }
@@ -76,7 +85,7 @@ func main() {
 	log.SetOutput(io.Discard)
 	r := rep.Open()
 	defer r.Close()
-	r.Rule = "server side: first frame = Tversion with msize from a 34-point grid (0..2^32-1, dense around 19..27 and 65536) x version strings, or a non-version / undecodable / oversize first frame; then a Tread with count 2^32-1. client side: server answers Rversion with msize from the same grid x version strings, or Rerror / wrong type / garbage. Non-trivial: every handshake; distinct by canonical text."
+	r.Rule = "server side: first frame = Tversion with msize from a 34-point grid (0..2^32-1, dense around 19..27 and 65536) x version strings, or a non-version / undecodable / oversize first frame; then a Tread with count 2^32-1, or (per msize) a Topen/Tattach/Tcreate/Tclunk whose fixed-size reply may exceed a tiny agreed msize; refused first frames also followed at once by a well-formed Tversion. client side: server answers Rversion with msize from the same grid x version strings, or Rerror / wrong type / garbage. Non-trivial: every handshake; distinct by canonical text."
 	rng := prng.New(r.Seed)
 	versions := []string{"9P2000", "9P2000", "9P2000", "9P2000.u", "9P2000.L", "", "unknown", "9p2000", strings.Repeat("x", 300)}
 
@@ -120,9 +129,25 @@ func main() {
 		}
 	}
 	tread, _ := wiregen.RefEncode(&p9p.Fcall{Type: p9p.Tread, Tag: 1, Message: p9p.MessageTread{Fid: 1, Offset: 0, Count: 0xffffffff}})
+	// other requests whose fixed-size replies are longer than a tiny agreed msize (Ropen/Rcreate 24, Rattach 20 bytes)
+	topen, _ := wiregen.RefEncode(&p9p.Fcall{Type: p9p.Topen, Tag: 1, Message: p9p.MessageTopen{Fid: 1, Mode: 0}})                                     // 12 bytes
+	tattach, _ := wiregen.RefEncode(&p9p.Fcall{Type: p9p.Tattach, Tag: 1, Message: p9p.MessageTattach{Fid: 1, Afid: p9p.NOFID, Uname: "", Aname: ""}}) // 19 bytes
+	tcreate, _ := wiregen.RefEncode(&p9p.Fcall{Type: p9p.Tcreate, Tag: 1, Message: p9p.MessageTcreate{Fid: 1, Name: "", Perm: 0, Mode: 0}})            // 18 bytes
+	tclunk, _ := wiregen.RefEncode(&p9p.Fcall{Type: p9p.Tclunk, Tag: 1, Message: p9p.MessageTclunk{Fid: 1}})
+	goodVersion, _ := wiregen.RefEncode(&p9p.Fcall{Type: p9p.Tversion, Tag: p9p.NOTAG, Message: p9p.MessageTversion{MSize: 8192, Version: "9P2000"}})
 	for i, first := range cases {
 		stream := append(append([]byte{}, first...), frameOf(tread)...)
-		serverCase(r, stream, labels[i])
+		serverCase(r, stream, labels[i], "tread")
+		if labels[i] == "tversion" {
+			for fi, follow := range [][]byte{topen, tattach, tcreate, tclunk} {
+				if (i+fi)%4 == 0 || r.Thorough() {
+					serverCase(r, append(append([]byte{}, first...), frameOf(follow)...), labels[i], "other")
+				}
+			}
+		} else if (labels[i] == "not-version" || (labels[i] == "garbage" && len(first) > 4 && first[4] != byte(p9p.Tversion))) && (i%2 == 0 || r.Thorough()) {
+			// a refused first frame stays refused even when a well-formed version request follows at once
+			serverCase(r, append(append(append([]byte{}, first...), frameOf(goodVersion)...), frameOf(tread)...), labels[i], "tread")
+		}
 	}
 
 	// ---------------- (b) client side ----------------
@@ -148,7 +173,7 @@ func main() {
 	}
 }
 
-func serverCase(r *rep.Report, stream []byte, label string) {
+func serverCase(r *rep.Report, stream []byte, label, follow string) {
 	c := sx.L(sx.Sym("shake-server"), sx.I(int64(p9p.DefaultMSize)), sx.B(stream))
 	var conn *lconn.Script
 	var h *recHandler
@@ -265,7 +290,7 @@ func serverCase(r *rep.Report, stream []byte, label string) {
 			r.Fail(key+"frame-exceeds-agreed", fmt.Sprintf("frame %d written by the server is %d bytes, agreed msize %d", i, len(f), want), c, nil)
 		}
 	}
-	if want >= 23 { // the 23-byte read request fits: it must be served with the count clamped to msize-11 and answered by a frame of exactly msize
+	if want >= 23 && follow == "tread" { // the 23-byte read request fits: it must be served with the count clamped to msize-11 and answered by a frame of exactly msize
 		if nseen != 1 {
 			r.Fail(key+"exact-fit", fmt.Sprintf("after agreeing on msize %d the server dispatched %d requests for a 23-byte read request", want, nseen), c, nil)
 		} else if tr, ok := h.seen[0].(p9p.MessageTread); !ok || uint64(tr.Count)+11 != uint64(want) {
